@@ -126,6 +126,9 @@ def run_schedule(main_factory, choices, horizon=20000):
             steps += 1
             if steps > horizon:
                 raise ScheduleError("step horizon exceeded (livelock?)")
+            # a harness future whose awaiting task was cancelled by the implementation is no longer pending
+            if any(f.done() for _l, f in sched.pending):
+                sched.pending = [(l, f) for l, f in sched.pending if not f.done()]
             has_ready = bool(loop._ready)
             n_opts = (1 if has_ready else 0) + len(sched.pending)
             if n_opts == 0:
